@@ -1,6 +1,7 @@
 import CookModel.Lemmas.FitNumbers
 import CookModel.Lemmas.FractionSat
 import CookModel.Lemmas.Convert
+import CookModel.Lemmas.IngList
 /-
   Which numbers `merge`, `absorb` and `ScaledRecipe::convert` can write (wave 11, C10): the same argument as
   `fnum_addAll` — a sum is a plain number (`Value::try_add`), everything else is copied — for the two ways of
@@ -137,5 +138,197 @@ theorem msat_recipeConvert (H : ApproxClosed c P) (to : System) (r : ScaledRecip
     simp only [List.mem_map] at hq'
     obtain ⟨q0, hq0, rfl⟩ := hq'
     exact fnum_convertImpl H q0 _ (hr.2.2 q0 hq0)
+
+/-! ### the ingredient list: `group_quantities` (add all, fit), `add_recipe` (merge into the entry of the name) -/
+
+theorem msat_group_fit (H : ApproxClosed c P) {g : GroupedQuantity Rat} (hg : g.AllNum P) : (g.fit c).1.AllNum P := by
+  obtain ⟨h1, h2, h3, h4⟩ := fnum_fitKnown H PhysQ.all g
+  unfold GroupedQuantity.fit
+  refine ⟨h4 hg.1, ?_, ?_, ?_⟩
+  · rw [h1]; exact hg.2.1
+  · rw [h2]; exact hg.2.2.1
+  · rw [h3]; exact hg.2.2.2
+
+theorem msat_refQuantities (all : List (Ingredient (Value Rat)))
+    (hall : ∀ i ∈ all, ∀ q, i.quantity = some q → q.value.AllNum P) (l : List Nat)
+    (qs : List (Option (SQuantity Rat))) (h : refQuantities all l = some qs) :
+    ∀ o ∈ qs, ∀ q, o = some q → q.value.AllNum P := by
+  induction l generalizing qs with
+  | nil =>
+    simp only [refQuantities, Option.some.injEq] at h
+    subst h
+    intro o ho; cases ho
+  | cons j rest ih =>
+    unfold refQuantities at h
+    split at h
+    · cases h
+    · rename_i i hi
+      split at h
+      · cases h
+      · rename_i qs' hqs'
+        simp only [Option.some.injEq] at h
+        subst h
+        intro o ho q hq
+        rcases List.mem_cons.mp ho with rfl | ho
+        · exact hall i (List.mem_of_getElem? hi) q hq
+        · exact ih qs' hqs' o ho q hq
+
+theorem msat_groupQuantities (H : ApproxClosed c P) (all : List (Ingredient (Value Rat)))
+    (hall : ∀ i ∈ all, ∀ q, i.quantity = some q → q.value.AllNum P) (i : Ingredient (Value Rat))
+    (hi : ∀ q, i.quantity = some q → q.value.AllNum P) (g : GroupedQuantity Rat)
+    (h : groupQuantities c all i = some g) : g.AllNum P := by
+  unfold groupQuantities at h
+  split at h
+  · cases h
+  · rename_i qs hqs
+    simp only [Option.some.injEq] at h
+    subst h
+    unfold allQuantities at hqs
+    split at hqs
+    · cases hqs
+    · rename_i os hos
+      simp only [Option.some.injEq] at hqs
+      subst hqs
+      refine msat_group_fit H (fnum_addAll H.regular _ _ fnum_empty ?_)
+      intro q hq
+      simp only [List.mem_filterMap, id] at hq
+      obtain ⟨o, ho, rfl⟩ := hq
+      rcases List.mem_cons.mp ho with ho | ho
+      · exact hi q ho.symm
+      · exact msat_refQuantities all hall _ os hos _ ho q rfl
+
+theorem msat_groupFrom (H : ApproxClosed c P) (all : List (Ingredient (Value Rat)))
+    (hall : ∀ i ∈ all, ∀ q, i.quantity = some q → q.value.AllNum P) (idx : Nat)
+    (rest : List (Ingredient (Value Rat))) (hrest : ∀ i ∈ rest, ∀ q, i.quantity = some q → q.value.AllNum P)
+    (l : List (GroupedIngredient Rat)) (h : groupFrom c all idx rest = some l) :
+    ∀ e ∈ l, e.quantity.AllNum P := by
+  induction rest generalizing idx l with
+  | nil =>
+    simp only [groupFrom, Option.some.injEq] at h
+    subst h
+    intro e he; cases he
+  | cons i rest ih =>
+    have hr : ∀ i ∈ rest, ∀ q, i.quantity = some q → q.value.AllNum P :=
+      fun x hx => hrest x (List.mem_cons_of_mem _ hx)
+    unfold groupFrom at h
+    split at h
+    · exact ih _ hr l h
+    · split at h
+      · cases h
+      · rename_i g hg
+        split at h
+        · cases h
+        · rename_i l' hl'
+          simp only [Option.some.injEq] at h
+          subst h
+          intro e he
+          rcases List.mem_cons.mp he with rfl | he
+          · exact msat_groupQuantities H all hall i (hrest i List.mem_cons_self) g hg
+          · exact ih _ hr l' hl' e he
+
+namespace BMap
+variable {β : Type}
+
+theorem msat_get?_mem (m : BMap β) (k : Str) (v : β) (h : m.get? k = some v) : ∃ e ∈ m, e.2 = v := by
+  induction m with
+  | nil => cases h
+  | cons e rest ih =>
+    unfold get? at h
+    split at h
+    · simp only [Option.some.injEq] at h
+      exact ⟨e, List.mem_cons_self, h⟩
+    · obtain ⟨x, hx, hv⟩ := ih h
+      exact ⟨x, List.mem_cons_of_mem _ hx, hv⟩
+
+theorem msat_mem_replace (k : Str) (v : β) (m : BMap β) (x : Str × β) (h : x ∈ replace k v m) :
+    x ∈ m ∨ x.2 = v := by
+  induction m with
+  | nil => cases h
+  | cons e rest ih =>
+    unfold replace at h
+    split at h
+    · rcases List.mem_cons.mp h with rfl | h
+      · exact Or.inr rfl
+      · exact Or.inl (List.mem_cons_of_mem _ h)
+    · rcases List.mem_cons.mp h with rfl | h
+      · exact Or.inl List.mem_cons_self
+      · rcases ih h with h | h
+        · exact Or.inl (List.mem_cons_of_mem _ h)
+        · exact Or.inr h
+
+theorem msat_mem_insertSorted (k : Str) (v : β) (m : BMap β) (x : Str × β) (h : x ∈ insertSorted k v m) :
+    x ∈ m ∨ x.2 = v := by
+  induction m with
+  | nil =>
+    simp only [insertSorted, List.mem_singleton] at h
+    subst h
+    exact Or.inr rfl
+  | cons e rest ih =>
+    unfold insertSorted at h
+    split at h
+    · rcases List.mem_cons.mp h with rfl | h
+      · exact Or.inl List.mem_cons_self
+      · rcases ih h with h | h
+        · exact Or.inl (List.mem_cons_of_mem _ h)
+        · exact Or.inr h
+    · rcases List.mem_cons.mp h with rfl | h
+      · exact Or.inr rfl
+      · exact Or.inl h
+
+theorem msat_mem_upsert (k : Str) (f : Option β → β) (m : BMap β) (x : Str × β) (h : x ∈ upsert k f m) :
+    x ∈ m ∨ x.2 = f (m.get? k) := by
+  unfold upsert at h
+  split at h
+  · rename_i old hold
+    rw [hold]
+    exact msat_mem_replace _ _ _ _ h
+  · rename_i hnone
+    rw [hnone]
+    exact msat_mem_insertSorted _ _ _ _ h
+
+end BMap
+
+/-- every group of every entry of the list satisfies `P` -/
+def IngredientList.AllNum (P : Number Rat → Prop) (list : IngredientList Rat) : Prop :=
+  ∀ e ∈ list, e.2.AllNum P
+
+theorem msat_addIngredient (hreg : ∀ x, P (.regular x)) (ord : MapOrder Rat) (hord : ord.IsPerm)
+    {list : IngredientList Rat} (hl : IngredientList.AllNum P list) (name : Str) {g : GroupedQuantity Rat}
+    (hg : g.AllNum P) : IngredientList.AllNum P (addIngredient ord c list name g) := by
+  intro e he
+  unfold addIngredient at he
+  rcases BMap.msat_mem_upsert _ _ _ _ he with he | he
+  · exact hl e he
+  · rw [he]
+    refine msat_merge hreg ord hord ?_ hg
+    cases hget : BMap.get? list name with
+    | none => exact fnum_empty
+    | some old =>
+      obtain ⟨x, hx, hv⟩ := BMap.msat_get?_mem _ _ _ hget
+      simp only [Option.getD_some]
+      rw [← hv]
+      exact hl x hx
+
+theorem msat_addRecipe (H : ApproxClosed c P) (ord : MapOrder Rat) (hord : ord.IsPerm)
+    {list : IngredientList Rat} (hl : IngredientList.AllNum P list) (r : ScaledRecipe Rat)
+    (hr : ∀ i ∈ r.ingredients, ∀ q, i.quantity = some q → q.value.AllNum P) (out : IngredientList Rat)
+    (h : addRecipe ord c list r = some out) : IngredientList.AllNum P out := by
+  unfold addRecipe at h
+  split at h
+  · cases h
+  · rename_i entries hentries
+    simp only [Option.some.injEq] at h
+    subst h
+    have he := msat_groupFrom H r.ingredients hr 0 r.ingredients hr entries hentries
+    clear hentries
+    induction entries generalizing list with
+    | nil => exact hl
+    | cons e rest ih =>
+      simp only [List.foldl_cons]
+      refine ih ?_ (fun x hx => he x (List.mem_cons_of_mem _ hx))
+      unfold addEntry
+      split
+      · exact hl
+      · exact msat_addIngredient H.regular ord hord hl _ (he e List.mem_cons_self)
 
 end Cook
